@@ -6,11 +6,22 @@
 // offered (as the set of bit positions in which the value differs from the
 // initial data).  Coq decides whether the schedule relation admits what was
 // seen; the oracle below decides whether the property holds for it.
+//
+// Besides the calls made by the harness process itself (which has made many
+// calls before), the harness re-executes itself: every child is a fresh process
+// whose first use of the package is a search split between several workers
+// (section "fresh processes"); all calls of one child form one case (CFresh,
+// Model/BruteForceProc.v).
 package main
 
 import (
+	"bytes"
+	"encoding/json"
 	"fmt"
 	"math/big"
+	"os"
+	"os/exec"
+	"path/filepath"
 	"regexp"
 	"runtime"
 	"sort"
@@ -25,7 +36,7 @@ import (
 
 const header = "From CSS Require Import Lib.Base Lib.Cases Model.Comb Model.BruteForce Model.BruteForceCases."
 
-const perShard = 60
+const perShard = 70
 
 type elem interface{ bool | byte }
 
@@ -304,6 +315,8 @@ type scenario[E elem] struct {
 	oracleDone bool
 	oracleMin  int
 	runs       []*runObs[E]
+	// set when every worker slice of this configuration starts with a satisfying value (cost estimate only)
+	allFirst *runCfg
 }
 
 func (sc *scenario[E]) total() uint64 { return uint64(len(sc.data)) * sc.itemSize }
@@ -338,6 +351,7 @@ type runObs[E elem] struct {
 	after     []E
 	panicMsg  string
 	hung      bool
+	waited    time.Duration
 	applyBad  []string
 }
 
@@ -364,8 +378,10 @@ func runOne[E elem](sc *scenario[E], rc runCfg) *runObs[E] {
 	if gctx != nil {
 		gctx.Begin("bruteforcer.BruteForce did not return", "pkg/bruteforcer/brute_forcer.go:BruteForce",
 			map[string]interface{}{"data": fmt.Sprint(sc.data), "itemSize": sc.itemSize, "minDistance": sc.wmin, "maxDistance": sc.wmax,
-				"predicate": sc.p.descr(), "GOMAXPROCS": rc.gomax, "maxConcurrency": rc.maxConc, "initMode": rc.initMode, "jitter": rc.jitter})
+				"predicate": sc.p.descr(), "GOMAXPROCS": rc.gomax, "maxConcurrency": rc.maxConc, "initMode": rc.initMode, "jitter": rc.jitter,
+				"process": processDescr()})
 	}
+	callNo++
 	orig := append([]E(nil), sc.data...)
 	input := append([]E(nil), sc.data...)
 	keepFull := sc.windowSize() <= maxFullCands
@@ -443,6 +459,9 @@ func runOne[E elem](sc *scenario[E], rc runCfg) *runObs[E] {
 		}
 	}
 	prev := runtime.GOMAXPROCS(rc.gomax)
+	if inFresh && callNo == 1 && wakeFirst {
+		wakeThreads(rc.gomax)
+	}
 	done := make(chan struct{})
 	go func() {
 		defer close(done)
@@ -460,15 +479,35 @@ func runOne[E elem](sc *scenario[E], rc runCfg) *runObs[E] {
 			o.comb = append(o.comb, int64(v))
 		}
 	}()
+	// a call that does not return is waited for 120 s the first time, 20 s afterwards; after the
+	// third one no further cases are generated (the run is a failure anyway; see hangs)
+	wait := 120 * time.Second
+	if hangs > 0 {
+		wait = 20 * time.Second
+	}
 	select {
 	case <-done:
-	case <-time.After(120 * time.Second):
+	case <-time.After(wait):
 		o.hung = true
+		o.waited = wait
+		hangs++
 	}
 	runtime.GOMAXPROCS(prev)
+	if o.hung {
+		// the goroutines of the call may still be running: hand out a snapshot that nobody writes to
+		mu.Lock()
+		snap := &runObs[E]{rc: rc, hung: true, waited: wait, ninit: o.ninit, after: append([]E(nil), input...)}
+		mu.Unlock()
+		return snap
+	}
 	o.after = append([]E(nil), input...)
 	return o
 }
+
+// number of BruteForce calls of this process that did not return in time
+var hangs int
+
+type tooManyHangs struct{}
 
 func errCode(err error) int {
 	if err == nil {
@@ -546,7 +585,7 @@ func oracle[E elem](sc *scenario[E], o *runObs[E]) []verdict {
 	add := func(what, site string) { v = append(v, verdict{what, site}) }
 	const siteRun = "pkg/bruteforcer/brute_forcer.go:run"
 	if o.hung {
-		add("BruteForce did not return within 120 s", siteRun)
+		add(fmt.Sprintf("BruteForce did not return within %v", o.waited), siteRun)
 		return v
 	}
 	if o.panicMsg != "" {
@@ -683,6 +722,7 @@ type pending struct {
 	nontriv  bool
 	cost     float64
 	verdicts []verdict
+	hung     bool
 }
 
 var pend []*pending
@@ -761,8 +801,14 @@ func emit[E elem](sc *scenario[E], o *runObs[E], kind string) {
 			ws[i] = fmt.Sprintf("(WObs %s %d %s %s)", gal.ZList64(r.first), r.n, gal.Bool(r.hit), ev)
 		}
 		rounds = append(rounds, gal.List(ws))
+		// every slice of this configuration starts with a satisfying value: a seek and one candidate per worker
+		allHitAtOnce := sc.allFirst != nil && sc.allFirst.gomax == rc.gomax && sc.allFirst.maxConc == rc.maxConc && uint64(d) == sc.wmax
 		if am := binom(int64(total), int64(d)); am.IsUint64() {
-			cost += float64(am.Uint64()) * (20 + float64(total))
+			if allHitAtOnce {
+				cost += float64(len(slicesOf(am.Uint64(), rc.gomax, rc.maxConc))) * 60 * (20 + float64(total)) // a seek and one candidate per worker
+			} else {
+				cost += float64(am.Uint64()) * (20 + float64(total))
+			}
 		}
 	}
 	res := "(Ok None)"
@@ -776,6 +822,9 @@ func emit[E elem](sc *scenario[E], o *runObs[E], kind string) {
 	if isBytes[E]() {
 		ctor = "CBytes"
 	}
+	if inFresh { // a call of a fresh process: the parent wraps the calls of the process into one CFresh case
+		ctor = "K" + ctor[1:]
+	}
 	lit := fmt.Sprintf("%s %d %d %s %d %d %d %s %s %s %s %d %s", ctor, rc.gomax, rc.maxConc, dlit(sc.data),
 		sc.itemSize, sc.wmin, sc.wmax, sc.p.lit(), gal.List(fails), res, gal.List(rounds), o.ninit, dlit(o.after))
 	typ := "bools"
@@ -788,6 +837,9 @@ func emit[E elem](sc *scenario[E], o *runObs[E], kind string) {
 		"initFunc": []string{"never fails", "always fails", fmt.Sprintf("fails on call #%d", rc.initN)}[rc.initMode],
 		"scenario": sc.tag,
 	}
+	if inFresh {
+		descr["call"] = callNo - 1
+	}
 	vs := oracle(sc, o)
 	if o.err != nil && o.comb != nil {
 		vs = append(vs, verdict{"both a result and an error were returned", "pkg/bruteforcer/brute_forcer.go:run"})
@@ -798,7 +850,7 @@ func emit[E elem](sc *scenario[E], o *runObs[E], kind string) {
 		scanned += r.n
 	}
 	cost += float64(scanned) * float64(sc.p.nTargets()) * float64(len(sc.data)) / 2
-	pend = append(pend, &pending{kind: kind, lit: lit, descr: descr, nontriv: sc.wmin <= sc.wmax && total > 0, cost: cost + 1000, verdicts: vs})
+	pend = append(pend, &pending{kind: kind, lit: lit, descr: descr, nontriv: sc.wmin <= sc.wmax && total > 0, cost: cost + 1000, verdicts: vs, hung: o.hung})
 	sc.runs = append(sc.runs, o)
 }
 
@@ -828,8 +880,23 @@ func runScenario[E elem](sc *scenario[E], cfgs []runCfg, kind string) {
 	first := len(pend)
 	for _, rc := range cfgs {
 		emit(sc, runOne(sc, rc), kind)
+		if hangs >= 3 {
+			panic(tooManyHangs{})
+		}
 	}
 	crossCheck(sc, first)
+}
+
+// generate runs gen; when three calls have hung it stops generating (what was observed so far is kept)
+func generate(gen func()) {
+	defer func() {
+		if x := recover(); x != nil {
+			if _, ok := x.(tooManyHangs); !ok {
+				panic(x)
+			}
+		}
+	}()
+	gen()
 }
 
 // ---------- generators ----------
@@ -1107,6 +1174,7 @@ func multi[E elem](c *gal.Ctx, n int, wmin, wmax uint64, design runCfg, variant 
 		for _, s := range sl {
 			p.targets = append(p.targets, tgt(top, s[0]))
 		}
+		sc.allFirst = &design
 	case "last-of-all":
 		for _, s := range sl {
 			p.targets = append(p.targets, tgt(top, s[1]-1))
@@ -1174,6 +1242,307 @@ func multi[E elem](c *gal.Ctx, n int, wmin, wmax uint64, design runCfg, variant 
 	runScenario(sc, append([]runCfg{design}, others...), kind)
 }
 
+// ---------- fresh processes ----------
+//
+// The property speaks about every call of BruteForce, hence also about the first one a process
+// ever makes, and nothing in its text lets the answer depend on what the process did before the
+// call.  Inside one harness process exactly one call is "the first", and it is a tiny one-worker
+// search; whatever the package sets up on its first use (tables, caches, pools) is then complete
+// for all later calls.  Therefore the harness re-executes itself: every child is a fresh process
+// whose FIRST use of the package is a BruteForce call whose first searched distance is already
+// split between several workers (all of them seek their iterators at the same time), followed by
+// further calls of the same process on the same and on other search spaces.  The child runs the
+// same recording callbacks and the same oracle as the parent and hands the observed calls back;
+// the parent ships the whole process as one case (CFresh) to Coq.  A child that dies (a panic in
+// a worker goroutine of BruteForce cannot be recovered) or hangs is a failure of the property
+// for the call the child had announced (gal.Begin) before it made it.
+
+const freshEnv = "VERIF_C07_FRESH"
+
+var (
+	inFresh bool // this process is such a child
+	callNo  int  // BruteForce calls made by this process so far
+	// have the OS threads running before the first call (a choice of the session generator)
+	wakeFirst bool
+)
+
+// wakeThreads makes the runtime start (and keep spinning for a moment) one OS thread per P, so that
+// the worker goroutines of the call that follows really start at the same time instead of one
+// after the other while the threads are being created.  Touches nothing of the package under test.
+func wakeThreads(n int) {
+	if n > 4*runtime.NumCPU() {
+		n = 4 * runtime.NumCPU()
+	}
+	var wg sync.WaitGroup
+	var sink uint64
+	var mu sync.Mutex
+	for i := 0; i < n; i++ {
+		wg.Add(1)
+		go func(i int) {
+			defer wg.Done()
+			x := uint64(i)
+			for t0 := time.Now(); time.Since(t0) < 200*time.Microsecond; {
+				for j := 0; j < 1000; j++ {
+					x = x*6364136223846793005 + 1442695040888963407
+				}
+			}
+			mu.Lock()
+			sink += x
+			mu.Unlock()
+		}(i)
+	}
+	wg.Wait()
+	_ = sink
+}
+
+func processDescr() string {
+	if inFresh {
+		return fmt.Sprintf("fresh child process of the harness; this is BruteForce call #%d of the process (call #0 is the first use of pkg/bruteforcer in the process)", callNo)
+	}
+	return fmt.Sprintf("harness process, BruteForce call #%d", callNo)
+}
+
+// what a child hands back for one call
+type freshCall struct {
+	Kind     string      `json:"kind"`
+	Lit      string      `json:"lit"`
+	Descr    interface{} `json:"descr"`
+	Nontriv  bool        `json:"nontriv"`
+	Cost     float64     `json:"cost"`
+	Verdicts [][2]string `json:"verdicts"`
+	Hung     bool        `json:"hung"`
+}
+
+// search spaces whose first searched distance d already has >= 20000 combinations (2..63 workers);
+// the more workers, the more of them make their first seek at the same moment
+type fspace struct {
+	bytes  bool
+	n      int
+	d      uint64
+	weight int
+}
+
+var fspaces = []fspace{
+	{false, 29, 4, 1}, {false, 32, 4, 2}, {false, 36, 4, 3}, {false, 40, 4, 3}, {false, 46, 4, 4}, {false, 51, 3, 1}, {false, 57, 3, 1}, {false, 64, 3, 3}, {false, 64, 4, 2},
+	{true, 4, 4, 2}, {true, 5, 4, 3}, {true, 8, 3, 3}, {true, 8, 4, 2}, {true, 26, 2, 1}, {true, 33, 2, 1}, {true, 41, 2, 1}, {true, 64, 2, 2},
+}
+
+// the calls of one fresh process.  A light process makes one call only, and every worker of it
+// finds a satisfying value at the first ID of its slice: all that happens is the simultaneous first
+// seek of all workers, one candidate each, and the choice among the publishers (cheap for Coq, so
+// that many such processes can be run: a window of a microsecond is not met by the first one).
+func freshSession(c *gal.Ctx, light bool) {
+	tw := 0
+	for _, sp := range fspaces {
+		tw += sp.weight
+	}
+	k := c.Rng.Intn(tw)
+	sp := fspaces[0]
+	for _, s := range fspaces {
+		if k < s.weight {
+			sp = s
+			break
+		}
+		k -= s.weight
+	}
+	bits := int64(sp.n)
+	if sp.bytes {
+		bits *= 8
+	}
+	// replaying a complete scan inside Coq is affordable on the smaller spaces only
+	// (Coq replays every worker up to its own hit or the end of its slice, also when the real
+	// worker stopped early; only "every worker hits at its first ID" is cheap on a large space)
+	big := float64(binom(bits, int64(sp.d)).Uint64())*float64(20+bits) > 6e6
+	design := runCfg{gomax: []int{3, 4, 7, 16, 16, 61, 64, 64}[c.Rng.Intn(8)], maxConc: []uint{0, 0, 0, 0, 0, 0, 2, 5}[c.Rng.Intn(8)], jitter: c.Rng.Intn(4)}
+	if c.Rng.Intn(10) == 0 {
+		design.gomax = 2
+	}
+	wakeFirst = c.Rng.Intn(3) != 0
+	// nothing satisfies / only the last ID of every slice does: every worker has to walk its whole
+	// slice, every candidate exactly once; the other variants stop early
+	variant := []string{"none", "none", "last-of-all", "boundary", "tail", "first-of-one", "last-of-one", "first-of-all", "first-of-all", "ends", "below-window", "many"}[c.Rng.Intn(12)]
+	if big || light {
+		variant = "first-of-all"
+	}
+	if light {
+		design.maxConc = 0
+		if design.gomax < 4 {
+			design.gomax = 16
+		}
+	}
+	var others []runCfg
+	if !big && !light {
+		switch c.Rng.Intn(4) {
+		case 0: // the same search again in the same process, other settings
+			others = []runCfg{randCfg(c)}
+		case 1:
+			others = []runCfg{{gomax: 1}}
+		}
+	}
+	if sp.bytes {
+		multi[byte](c, sp.n, sp.d, sp.d, design, variant, others, "fresh-bytes")
+	} else {
+		multi[bool](c, sp.n, sp.d, sp.d, design, variant, others, "fresh-bools")
+	}
+	if light {
+		return
+	}
+	// later calls of the same process on other data: what the earlier calls left behind must not matter
+	switch c.Rng.Intn(6) {
+	case 0:
+		small[bool](c, 27, 3, "fresh-bools")
+	case 1:
+		small[byte](c, 3, 3, "fresh-bytes")
+	case 2:
+		sp2 := []fspace{{false, 29, 4, 0}, {false, 51, 3, 0}, {true, 26, 2, 0}, {true, 4, 4, 0}}[c.Rng.Intn(4)]
+		d2 := runCfg{gomax: []int{2, 3, 16}[c.Rng.Intn(3)], jitter: c.Rng.Intn(4)}
+		v2 := []string{"none", "last-of-all", "boundary", "first-of-all"}[c.Rng.Intn(4)]
+		if sp2.bytes {
+			multi[byte](c, sp2.n, sp2.d, sp2.d, d2, v2, nil, "fresh-bytes")
+		} else {
+			multi[bool](c, sp2.n, sp2.d, sp2.d, d2, v2, nil, "fresh-bools")
+		}
+	}
+}
+
+func freshChildMain() {
+	inFresh = true
+	c := gal.New("C07", header, perShard) // -seed: the seed the parent drew for this child; -out: a directory of its own
+	gctx = c
+	generate(func() { freshSession(c, os.Getenv(freshEnv) == "light") })
+	out := make([]freshCall, len(pend))
+	for i, p := range pend {
+		out[i] = freshCall{Kind: p.kind, Lit: p.lit, Descr: p.descr, Nontriv: p.nontriv, Cost: p.cost, Hung: p.hung}
+		for _, v := range p.verdicts {
+			out[i].Verdicts = append(out[i].Verdicts, [2]string{v.what, v.site})
+		}
+	}
+	b, err := json.Marshal(out)
+	if err != nil {
+		panic(err)
+	}
+	os.Stdout.Write(b)
+}
+
+type looseFail struct {
+	what, site string
+	input      interface{}
+}
+
+var looseFails []looseFail
+
+var crashRE = regexp.MustCompile(`(?m)^(panic: .*|fatal error: .*)$`)
+
+// one fresh process: the calls it made become one case
+func freshProcess(c *gal.Ctx, no int, light bool) {
+	seed := c.Rng.Int63()
+	mode := "full"
+	if light {
+		mode = "light"
+	}
+	exe, err := os.Executable()
+	if err != nil {
+		panic(err)
+	}
+	dir, err := os.MkdirTemp("", "c07-fresh-")
+	if err != nil {
+		panic(err)
+	}
+	defer os.RemoveAll(dir)
+	cmd := exec.Command(exe, "-seed", strconv.FormatInt(seed, 10), "-tier", c.Tier, "-out", dir)
+	cmd.Env = append(os.Environ(), freshEnv+"="+mode)
+	var so, se bytes.Buffer
+	cmd.Stdout, cmd.Stderr = &so, &se
+	done := make(chan error, 1)
+	if err := cmd.Start(); err != nil {
+		panic(err)
+	}
+	go func() { done <- cmd.Wait() }()
+	hung := false
+	select {
+	case err = <-done:
+	case <-time.After(240 * time.Second):
+		hung = true
+		_ = cmd.Process.Kill()
+		err = <-done
+	}
+	var calls []freshCall
+	if err == nil {
+		err = json.Unmarshal(so.Bytes(), &calls)
+	}
+	if err != nil || hung {
+		// the call the child had announced before it died
+		var cur struct {
+			Site  string      `json:"site"`
+			Input interface{} `json:"input"`
+		}
+		if b, e := os.ReadFile(filepath.Join(dir, "C07.current.json")); e == nil {
+			_ = json.Unmarshal(b, &cur)
+		}
+		how := "died: " + err.Error()
+		if m := crashRE.FindString(se.String()); m != "" {
+			how = "died: " + m
+		}
+		if hung {
+			how = "did not finish within 240 s"
+		}
+		if len(how) > 400 {
+			how = how[:400]
+		}
+		if cur.Site == "" {
+			cur.Site = "pkg/bruteforcer/brute_forcer.go:BruteForce"
+		}
+		if cur.Input == nil {
+			cur.Input = map[string]interface{}{"stderr": tail(se.String(), 600)}
+		}
+		input := map[string]interface{}{
+			"call that did not return": cur.Input,
+			"how to run the process":   freshEnv + "=" + mode + " <c07 binary> -seed " + strconv.FormatInt(seed, 10) + " -tier " + c.Tier + " -out <dir>  (the outcome depends on the schedule: repeat it)",
+		}
+		looseFails = append(looseFails, looseFail{"bruteforcer.BruteForce did not return in a fresh process (child #" + strconv.Itoa(no) + " of the harness " + how + ")", cur.Site, input})
+		if hung {
+			hangs++
+		}
+		return
+	}
+	if len(calls) == 0 {
+		panic("harness: a fresh child made no call")
+	}
+	p := &pending{kind: "fresh-process", nontriv: true, cost: 1000}
+	lits := make([]string, len(calls))
+	descrs := make([]interface{}, len(calls))
+	for i, fc := range calls {
+		lits[i] = "(" + fc.Lit + ")"
+		descrs[i] = fc.Descr
+		p.cost += fc.Cost
+		if fc.Hung {
+			p.hung = true
+		}
+		for _, v := range fc.Verdicts {
+			p.verdicts = append(p.verdicts, verdict{fmt.Sprintf("BruteForce call #%d of a fresh process: %s", i, v[0]), v[1]})
+		}
+	}
+	p.lit = "CFresh " + gal.List(lits)
+	p.descr = map[string]interface{}{
+		"process": "fresh child process of the harness (c07 re-executed with " + freshEnv + "=" + mode + " -seed " + strconv.FormatInt(seed, 10) + " -tier " + c.Tier + "); the calls below are ALL BruteForce calls of that process, in order; call #0 is its first use of pkg/bruteforcer",
+		"calls":   descrs,
+	}
+	pend = append(pend, p)
+	if p.hung {
+		hangs++
+	}
+	if hangs >= 3 {
+		panic(tooManyHangs{})
+	}
+}
+
+func tail(s string, n int) string {
+	if len(s) > n {
+		return s[len(s)-n:]
+	}
+	return s
+}
+
 type space struct {
 	bytes      bool
 	n          int
@@ -1181,9 +1550,18 @@ type space struct {
 }
 
 func main() {
+	if os.Getenv(freshEnv) != "" {
+		freshChildMain()
+		return
+	}
 	c := gal.New("C07", header, perShard)
 	gctx = c
 
+	generate(func() { generateAll(c) })
+	finish(c)
+}
+
+func generateAll(c *gal.Ctx) {
 	// ---- F1: tiny spaces, every value offered is shipped ----
 	for i, n := 0, c.Scale(260, 1500); i < n; i++ {
 		if c.Rng.Intn(10) < 7 {
@@ -1316,6 +1694,13 @@ func main() {
 		multi[bool](c, 64, 3, 4, runCfg{gomax: 64}, "lower-too", []runCfg{{gomax: 3}}, "wide-bools")
 	}
 
+	// ---- F5: fresh processes whose first BruteForce call is searched by several workers ----
+	for i, n := 0, c.Scale(120, 720); i < n; i++ {
+		freshProcess(c, i, i%3 != 0)
+	}
+}
+
+func finish(c *gal.Ctx) {
 	// ---- balance the shards (cases differ in cost by five orders of magnitude) ----
 	nb := (len(pend) + perShard - 1) / perShard
 	order := make([]*pending, len(pend))
@@ -1351,9 +1736,23 @@ func main() {
 			}
 		}
 	}
+	for _, f := range looseFails {
+		c.OracleFail(-1, f.what, f.site, f.input)
+	}
+	if os.Getenv("VERIF_C07_DEBUG") != "" {
+		byKind := map[string]float64{}
+		for _, p := range pend {
+			byKind[p.kind] += p.cost
+		}
+		fmt.Fprintln(os.Stderr, "cost by kind:", byKind, "shard loads:", load)
+	}
 	c.Finish("bruteforcer.BruteForce on []bool (itemSize 1, 0) and []byte (itemSize 0..8): random data of 0..64 items, windows 0<=min<=max<=4 and min>max, " +
 		"predicates false/true/one-of-targets/item-constraints/or, satisfying values at random places and at the first/last combination ID of the worker slices; " +
 		"byte and bool strings of 29..64 items at distances <= 2 with satisfying values in the last items, around items 16/32/48 (bit positions 256.. need more than 8 bits) and split low/high; " +
 		"GOMAXPROCS in {1,2,3,4,7,16,61,64}, maxConcurrency in {0,1,2,5}, initFunc failing never/always/on the n-th call, scheduling jitter in checkFunc; " +
-		"spaces of 20000..635376 combinations give 2..63 workers; a case is non-trivial when min<=max and the data has at least one bit; distinct = distinct Gallina literal")
+		"spaces of 20000..635376 combinations give 2..63 workers; " +
+		"fresh processes (kind fresh-process, case CFresh = ALL BruteForce calls of one re-executed harness child, in order): the child's first use of pkg/bruteforcer is a call whose first searched distance " +
+		"(bools 29..64 items at distance 3/4, bytes 4..64 items at distance 2..4) is split between 2..63 workers which all seek at the same time, with OS threads pre-started or not; a third of the children go on with the same search under other settings " +
+		"and with searches on other data in the same process (nothing satisfies / last ID of every slice / slice boundaries / ...), two thirds make that one call with a satisfying value at the first ID of every slice; a child that dies or hangs is a failure for the call it had announced; " +
+		"a case is non-trivial when min<=max and the data has at least one bit; distinct = distinct Gallina literal")
 }
